@@ -2640,6 +2640,7 @@ def reset_data(m: types.Model, d: types.Data, reset: Optional[wp.array] = None):
     nv: int,
     nbody: int,
     ntree: int,
+    body_rootid: wp.array[int],
     body_mocapid: wp.array[int],
     body_treeid: wp.array[int],
     # In:
@@ -2664,7 +2665,8 @@ def reset_data(m: types.Model, d: types.Data, reset: Optional[wp.array] = None):
 
     if elemid < nbody:
       if body_treeid[elemid] < 0:
-        if body_mocapid[elemid] >= 0:
+        # bodies welded to a mocap body move with it (same rule as _initial_body_awake)
+        if body_mocapid[body_rootid[elemid]] >= 0:
           body_awake_out[worldid, elemid] = int(types.SleepState.AWAKE)
         else:
           body_awake_out[worldid, elemid] = int(types.SleepState.STATIC)
@@ -2736,7 +2738,7 @@ def reset_data(m: types.Model, d: types.Data, reset: Optional[wp.array] = None):
   wp.launch(
     reset_sleep,
     dim=(d.nworld, max(m.ntree, m.nbody, m.nv)),
-    inputs=[m.nv, m.nbody, m.ntree, m.body_mocapid, m.body_treeid, types.MJ_MINAWAKE, reset_input],
+    inputs=[m.nv, m.nbody, m.ntree, m.body_rootid, m.body_mocapid, m.body_treeid, types.MJ_MINAWAKE, reset_input],
     outputs=[
       d.tree_asleep,
       d.tree_awake,
